@@ -56,7 +56,7 @@ use vcommon::{
 
 const RULE: &str = "C01 workload at reduced volume (sessions of generated blocks, all transaction templates, relayer \
 events, limit-ignoring sources, blocks far below 1024 txs). For every block, on the same uncommitted parent: production \
-by the native and by the WASM executor (same deterministic source), a dry run by both, validation of the produced block \
+by the native, the forced-WASM and the uploaded-bytecode-path executor (native version != block version; same deterministic source), a dry run by both, Executor::dry_run with every config-default x utxo-override combination (native vs uploaded path), production and validation with a relayer that fails for one DA height of the range (accept/reject + error variant), validation of the produced block \
 by both, and validation of 3-4 invalid variants of it by both. Compared: block (header and transactions), canonical \
 Changes, tx statuses, events, skipped ids with error variants, accept/reject with error variant. Non-trivial block: as \
 C01; distinct = multiset of (template, outcome) per block.";
@@ -197,6 +197,23 @@ impl Cmp<'_> {
         }
     }
 
+    /// accept/reject and error variant only
+    fn verdicts<T, U>(&self, what: &str, n: &Result<T, ExecutorError>, w: &Result<U, ExecutorError>) {
+        match (n, w) {
+            (Err(a), Err(b)) => {
+                if !what.starts_with("dry_run_api") {
+                    self.report.count(&format!("c07.{what}.both_error.{}", err_name(a)));
+                }
+                if err_name(a) != err_name(b) {
+                    self.violation(&format!("{what}_error_variants_differ"), format!("native {a:?} vs wasm {b:?}"), what);
+                }
+            }
+            (Ok(_), Err(e)) => self.violation(&format!("{what}_wasm_fails_native_succeeds"), format!("wasm: {e:?}"), what),
+            (Err(e), Ok(_)) => self.violation(&format!("{what}_native_fails_wasm_succeeds"), format!("native: {e:?}"), what),
+            (Ok(_), Ok(_)) => self.report.count(&format!("c07.{what}.both_ok")),
+        }
+    }
+
     fn validation(&self, what: &str, n: &Result<Validated, ExecutorError>, w: &Result<Validated, ExecutorError>) {
         match (n, w) {
             (Err(a), Err(b)) => {
@@ -291,6 +308,117 @@ fn invalid_variants(sess: &ChainSession, p: &Produced, rng: &mut StdRng) -> Vec<
     out
 }
 
+
+// ---------------------------------------------------------------- relayer with an injectable fault
+
+use chaingen::{
+    fuel_core::database::{
+        Database,
+        RelayerIterableKeyValueView,
+        database_description::{
+            on_chain::OnChain,
+            relayer::Relayer,
+        },
+    },
+    fuel_core_executor::{
+        executor::{
+            TimeoutOnlyTxWaiter,
+            TransparentPreconfirmationSender,
+        },
+        ports::RelayerPort,
+    },
+    fuel_core_storage::{
+        Result as StorageResult,
+        transactional::AtomicView,
+    },
+    fuel_core_types::{
+        blockchain::primitives::DaBlockHeight,
+        services::{
+            block_producer::Components,
+            relayer::Event,
+        },
+    },
+    fuel_core_upgradable_executor::executor::Executor,
+};
+use std::sync::{
+    Arc,
+    atomic::{
+        AtomicU64,
+        Ordering,
+    },
+};
+
+/// Relayer view provider over the session's real relayer database whose
+/// `get_events` fails for exactly one DA height (0 = no fault).
+#[derive(Clone)]
+struct FaultyRelayer {
+    inner: Database<Relayer>,
+    fail_at: Arc<AtomicU64>,
+}
+
+struct FaultyView {
+    inner: RelayerIterableKeyValueView,
+    fail_at: u64,
+}
+
+impl AtomicView for FaultyRelayer {
+    type LatestView = FaultyView;
+
+    fn latest_view(&self) -> StorageResult<FaultyView> {
+        Ok(FaultyView {
+            inner: self.inner.latest_view()?,
+            fail_at: self.fail_at.load(Ordering::SeqCst),
+        })
+    }
+}
+
+impl RelayerPort for FaultyView {
+    fn enabled(&self) -> bool {
+        true
+    }
+
+    fn get_events(&self, da_height: &DaBlockHeight) -> anyhow::Result<Vec<Event>> {
+        if self.fail_at != 0 && da_height.0 == self.fail_at {
+            anyhow::bail!("injected relayer fault at DA height {}", da_height.0)
+        }
+        self.inner.get_events(da_height)
+    }
+}
+
+type FaultyExecutor = Executor<Database<OnChain>, FaultyRelayer>;
+
+fn faulty_executor(sess: &ChainSession, strategy: Strategy, fail_at: &Arc<AtomicU64>) -> FaultyExecutor {
+    let relayer = FaultyRelayer {
+        inner: sess.relayer.clone(),
+        fail_at: fail_at.clone(),
+    };
+    let config = chaingen::session::exec_config(strategy, sess.cfg.forbid_fake_coins);
+    match strategy {
+        Strategy::Wasm => Executor::wasm(sess.on_chain.clone(), relayer, config),
+        _ => Executor::native(sess.on_chain.clone(), relayer, config),
+    }
+}
+
+fn produce_faulty(exec: &FaultyExecutor, sess: &ChainSession, plan: &BlockPlan, source: SourceKind) -> Result<Block, ExecutorError> {
+    let src = chaingen::HarnessSource::new(
+        source,
+        &plan.txs,
+        plan.height.into(),
+        plan.params_version,
+        &sess.params,
+        sess.prev_params.as_ref(),
+    );
+    let components = Components {
+        header_to_produce: sess.header_for(plan),
+        transactions_source: src,
+        coinbase_recipient: plan.coinbase_recipient,
+        gas_price: plan.gas_price,
+    };
+    let fut = exec.produce_without_commit_with_source(components, TimeoutOnlyTxWaiter, TransparentPreconfirmationSender);
+    let (result, _changes) = futures::executor::block_on(fut)?.into();
+    Ok(result.block)
+}
+
 fn source_for(rng: &mut StdRng) -> SourceKind {
     match rng.gen_range(0..8) {
         0..=2 => SourceKind::Honest,
@@ -304,9 +432,21 @@ fn source_for(rng: &mut StdRng) -> SourceKind {
 fn run_session(report: &Report, selftest: Option<u32>, seed: u64, shard: usize, session: usize, rng: &mut StdRng, blocks: u32) {
     let mut cfg = SessionConfig::random(rng);
     cfg.max_txs_per_block = 10;
+    // the build's WASM blob is also stored as the uploaded bytecode of the current version, so that an
+    // executor with another native version takes the uploaded-bytecode path for the same blocks
+    cfg.uploaded_wasm = true;
     let mut sess = ChainSession::new(rng, cfg);
     let native = sess.executor_for(Strategy::Native);
     let wasm = sess.executor_for(Strategy::Wasm);
+    let uploaded = sess.executor_for(Strategy::UploadedWasm);
+    // dry-run API: config default x override, native vs uploaded-bytecode path
+    let dry_pairs = [
+        (true, sess.executor_with(Strategy::Native, true), sess.executor_with(Strategy::UploadedWasm, true)),
+        (false, sess.executor_with(Strategy::Native, false), sess.executor_with(Strategy::UploadedWasm, false)),
+    ];
+    let fail_at = Arc::new(AtomicU64::new(0));
+    let native_faulty = faulty_executor(&sess, Strategy::Native, &fail_at);
+    let wasm_faulty = faulty_executor(&sess, Strategy::Wasm, &fail_at);
     let opt = GenOptions::default();
     for _ in 0..blocks {
         let parent_da = sess.da_height;
@@ -348,6 +488,91 @@ fn run_session(report: &Report, selftest: Option<u32>, seed: u64, shard: usize, 
             }
         }
         cmp.production("production", &n, &w);
+        // ---- the uploaded-bytecode path (block version != executor's native version)
+        match catch(|| sess.produce_on(&uploaded, &plan, &plan.txs, source, false)) {
+            Ok(u) => cmp.production("uploaded_production", &n, &u),
+            Err(p) => report.inconclusive(format!("panic during production on the uploaded path: {p}")),
+        }
+        // ---- Executor::dry_run with the utxo-validation override, every combination of config default and override
+        {
+            let interesting = plan
+                .txs
+                .iter()
+                .filter(|p| matches!(p.twist, chaingen::Twist::MissingCoin | chaingen::Twist::MismatchCoin | chaingen::Twist::DoubleSpend))
+                .chain(plan.txs.iter())
+                .next();
+            if let Some(p) = interesting {
+                for (default, nat, upl) in &dry_pairs {
+                    let mut verdicts = Vec::new();
+                    for ov in [None, Some(true), Some(false)] {
+                        let rn = catch(|| sess.dry_run_on(nat, &plan, vec![p.tx.clone()], ov));
+                        let ru = catch(|| sess.dry_run_on(upl, &plan, vec![p.tx.clone()], ov));
+                        let (Ok(rn), Ok(ru)) = (rn, ru) else {
+                            report.inconclusive("panic during Executor::dry_run".to_string());
+                            continue
+                        };
+                        let what = format!("dry_run_api_default_{default}_override_{}", match ov { None => "none", Some(true) => "true", Some(false) => "false" });
+                        match (&rn, &ru) {
+                            (Ok(a), Ok(b)) => {
+                                report.count("c07.dry_run_api.both_ok");
+                                // transactions by `==` (cached metadata is not part of equality), statuses by rendering
+                                let same_txs = a.transactions.len() == b.transactions.len()
+                                    && a.transactions.iter().zip(b.transactions.iter()).all(|(x, y)| x.0 == y.0);
+                                let sa: Vec<_> = a.transactions.iter().map(|x| &x.1).collect();
+                                let sb: Vec<_> = b.transactions.iter().map(|x| &x.1).collect();
+                                if !same_txs {
+                                    cmp.violation(&format!("{what}_transactions_differ"), "native vs uploaded path".to_string(), &what);
+                                }
+                                if let Some(d) = first_debug_diff(&sa, &sb) {
+                                    cmp.violation(&format!("{what}_statuses_differ"), format!("native vs uploaded path: {d}"), &what);
+                                }
+                            }
+                            _ => {
+                                cmp.verdicts(&what, &rn, &ru);
+                                if let (Err(e), Err(_)) = (&rn, &ru) {
+                                    report.count(&format!("c07.dry_run_api.both_error.{}", err_name(e)));
+                                }
+                            }
+                        }
+                        verdicts.push((ov, rn.is_ok()));
+                    }
+                    // evidence: the override really mattered for this tx and differed from the config default
+                    let ok_true = verdicts.iter().find(|(o, _)| *o == Some(true)).map(|v| v.1);
+                    let ok_false = verdicts.iter().find(|(o, _)| *o == Some(false)).map(|v| v.1);
+                    if ok_true == Some(false) && ok_false == Some(true) {
+                        report.count(&format!("c07.dry_run_api.utxo_override_matters.config_default_{default}"));
+                    }
+                }
+            }
+        }
+        // ---- relayer fault inside the block's DA range: both strategies must refuse alike
+        if plan.da_height > parent_da {
+            let at = parent_da + 1 + rng.gen_range(0..(plan.da_height - parent_da));
+            fail_at.store(at, Ordering::SeqCst);
+            let fnat = catch(|| produce_faulty(&native_faulty, &sess, &plan, source));
+            let fwas = catch(|| produce_faulty(&wasm_faulty, &sess, &plan, source));
+            if let (Ok(a), Ok(b)) = (&fnat, &fwas) {
+                cmp.verdicts("relayer_fault_production", a, b);
+                if a.is_err() {
+                    report.count("c07.relayer_fault.production_refused_by_native");
+                }
+            } else {
+                report.inconclusive("panic during production with a relayer fault".to_string());
+            }
+            if let Ok(good) = &n {
+                let vn = catch(|| native_faulty.validate(&good.block).map(|_| ()));
+                let vw = catch(|| wasm_faulty.validate(&good.block).map(|_| ()));
+                if let (Ok(a), Ok(b)) = (&vn, &vw) {
+                    cmp.verdicts("relayer_fault_validation", a, b);
+                    if a.is_err() {
+                        report.count("c07.relayer_fault.validation_refused_by_native");
+                    }
+                } else {
+                    report.inconclusive("panic during validation with a relayer fault".to_string());
+                }
+            }
+            fail_at.store(0, Ordering::SeqCst);
+        }
         // ---- dry run (no relayer processing, no mint)
         let dn = catch(|| sess.produce_on(&native, &plan, &plan.txs, source, true));
         let dw = catch(|| sess.produce_on(&wasm, &plan, &plan.txs, source, true));
@@ -364,7 +589,13 @@ fn run_session(report: &Report, selftest: Option<u32>, seed: u64, shard: usize, 
         let vn = catch(|| sess.validate_on(&native, &produced.block));
         let vw = catch(|| sess.validate_on(&wasm, &produced.block));
         match (vn, vw) {
-            (Ok(vn), Ok(vw)) => cmp.validation("validation", &vn, &vw),
+            (Ok(vn), Ok(vw)) => {
+                cmp.validation("validation", &vn, &vw);
+                match catch(|| sess.validate_on(&uploaded, &produced.block)) {
+                    Ok(vu) => cmp.validation("uploaded_validation", &vn, &vu),
+                    Err(p) => report.inconclusive(format!("panic during validation on the uploaded path: {p}")),
+                }
+            }
             (a, b) => report.inconclusive(format!("panic during validation: {:?} {:?}", a.err(), b.err())),
         }
         for (name, b) in invalid_variants(&sess, &produced, rng) {
@@ -430,7 +661,7 @@ fn c07(args: &Args, report: &Report) {
         }
     }
     let shards = args.by_tier(16, 32);
-    let sessions = args.by_tier(2, 20);
+    let sessions = args.by_tier(2, 8);
     let blocks = args.by_tier(6u32, 10);
     if let Some(r) = read_replay(args) {
         let seed = r.get("seed").and_then(|v| v.as_u64()).unwrap_or(args.seed);
@@ -454,15 +685,22 @@ fn c07(args: &Args, report: &Report) {
     if args.replay.is_some() {
         return;
     }
-    report.require("c07.production.both_ok", args.by_tier(60, 2_000));
-    report.require("c07.validation.both_accept", args.by_tier(60, 2_000));
-    report.require("c07.validation_both_reject", args.by_tier(150, 5_000));
-    report.require("c07.dry_run.both_ok", args.by_tier(60, 2_000));
-    report.require("c07.nontrivial_blocks", args.by_tier(40, 1_500));
-    report.require("c07.txs_failed", args.by_tier(20, 700));
-    report.require("c07.txs_skipped", args.by_tier(40, 1_500));
-    report.require("c07.blocks_with_contract_state_write", args.by_tier(15, 500));
-    report.require("c07.blocks_with_da_advance", args.by_tier(20, 700));
+    report.require("c07.uploaded_production.both_ok", args.by_tier(60, 800));
+    report.require("c07.uploaded_validation.both_accept", args.by_tier(60, 800));
+    report.require("c07.dry_run_api.utxo_override_matters.config_default_true", args.by_tier(15, 160));
+    report.require("c07.dry_run_api.utxo_override_matters.config_default_false", args.by_tier(15, 160));
+    report.require("c07.dry_run_api.both_ok", args.by_tier(400, 4000));
+    report.require("c07.relayer_fault.production_refused_by_native", args.by_tier(80, 960));
+    report.require("c07.relayer_fault.validation_refused_by_native", args.by_tier(80, 960));
+    report.require("c07.production.both_ok", args.by_tier(60, 800));
+    report.require("c07.validation.both_accept", args.by_tier(60, 800));
+    report.require("c07.validation_both_reject", args.by_tier(150, 2000));
+    report.require("c07.dry_run.both_ok", args.by_tier(60, 800));
+    report.require("c07.nontrivial_blocks", args.by_tier(40, 600));
+    report.require("c07.txs_failed", args.by_tier(20, 280));
+    report.require("c07.txs_skipped", args.by_tier(40, 600));
+    report.require("c07.blocks_with_contract_state_write", args.by_tier(15, 200));
+    report.require("c07.blocks_with_da_advance", args.by_tier(20, 280));
 }
 
 fn main() {
